@@ -380,5 +380,23 @@ def convKw : List (PyStr × Arg) → Option Fields
 def construct (fields : Fields) (kwargs : List (PyStr × Arg)) : Option Fields :=
   (convKw kwargs).map (fun ps => C35.update fields (ps.foldl (fun d p => dictSet d p.1 p.2) []))
 
+/-- `Headers.__init__`'s type check on `fields`: every name and value must be `bytes`; `none` = TypeError
+    ("Header fields must be bytes.") -/
+def typedFields : List (Arg × Arg) → Option Fields
+  | [] => some []
+  | (.b k, .b v) :: r => (typedFields r).map (fun fs => (k, v) :: fs)
+  | _ => Option.none
+
+inductive CtorErr where | typeError | unicodeError
+  deriving DecidableEq
+
+/-- `Headers(fields, **kwargs)` with untyped `fields`: the type check comes first, then the keyword update -/
+def constructFull (fields : List (Arg × Arg)) (kwargs : List (PyStr × Arg)) : Except CtorErr Fields :=
+  match typedFields fields with
+  | Option.none => .error .typeError
+  | some fs => match construct fs kwargs with
+    | Option.none => .error .unicodeError
+    | some r => .ok r
+
 end Api
 end MitmVerif.C35
